@@ -330,3 +330,47 @@ func VH_C04_LegacyNegotiate(site int) {
 	}
 	vhReach("c04-legacy-negotiate")
 }
+
+// C04 legacy writer, Metadata "all topics": a nil topic list is the null array (length -1) on the wire - an empty
+// array means "no topics" to a broker - at both request versions the Conn uses; a non-nil list is written as it is.
+func VH_C04_MetadataAllTopics(version int) {
+	clientID := vhString("clientid", 1)
+	corr := vhInt32("corr")
+	n := vhChoose("topics", 3) - 1 // -1: nil (all topics), 0: none, 1: one topic
+	var topics []string
+	if n >= 0 {
+		topics = []string{}
+	}
+	if n == 1 {
+		topics = append(topics, vhString("topic", 2))
+	}
+	fc := &vhFakeConn{}
+	c := NewConnWith(fc, ConnConfig{ClientID: clientID})
+	var err error
+	if version == 6 {
+		err = c.writeRequest(metadata, v6, corr, topicMetadataRequestV6{Topics: topics, AllowAutoTopicCreation: true})
+	} else {
+		err = c.writeRequest(metadata, v1, corr, topicMetadataRequestV1(topics))
+	}
+	vhAssert(err == nil, "metadata-request-write-ok")
+	frame := fc.written
+	body := 14 + len(clientID)
+	vhAssert(len(frame) >= body+4, "metadata-request-has-a-body")
+	if len(frame) < body+4 {
+		return
+	}
+	size := int32(uint32(frame[0])<<24 | uint32(frame[1])<<16 | uint32(frame[2])<<8 | uint32(frame[3]))
+	vhAssert(int(size) == len(frame)-4, "metadata-request-size-prefix")
+	count := int32(uint32(frame[body])<<24 | uint32(frame[body+1])<<16 | uint32(frame[body+2])<<8 | uint32(frame[body+3]))
+	vhAssert(count == int32(n), "metadata-request-topic-array-length-null-for-all-topics")
+	want := body + 4
+	if n == 1 {
+		want += 2 + len(topics[0])
+	}
+	if version == 6 {
+		vhAssert(len(frame) == want+1 && frame[want] == 1, "metadata-request-allow-auto-topic-creation")
+	} else {
+		vhAssert(len(frame) == want, "metadata-request-length")
+	}
+	vhReach("c04-metadata-all-topics")
+}
